@@ -134,7 +134,9 @@ func propC18(t *rapid.T) {
 	// a little history so that representations are not only the freshly built ones
 	for i := 0; i < rapid.IntRange(0, 4).Draw(t, "nops"); i++ {
 		s, e := range64(t, "r", m)
-		switch rapid.IntRange(0, 4).Draw(t, "op") {
+		switch rapid.IntRange(0, 5).Draw(t, "op") {
+		case 5:
+			b.RunOptimize()
 		case 4:
 			// cut a chunk back to exactly 4095/4096/4097 values by one range removal
 			if m.IsEmpty() {
@@ -261,6 +263,41 @@ func propC18(t *rapid.T) {
 	if got := spec.Set64Of(bks); !got.Equal(m) {
 		fail("independent decode gives another set: %s", model.Diff(m, got))
 	}
+	// the other direction: a conformant stream written by an independent encoder (with either cookie per bucket) is read as the same set
+	if m.Card() <= 1<<21 && len(by) <= 1<<20 { // (the independent encoder writes full chunks as 8 KiB bit sets: keep whole-bucket sets out)
+		enc := spec.Encode64(spec.Buckets64Of(m, nil), spec.EncOpts{ForceRunCookie: rapid.Bool().Draw(t, "foreign.runCookie")})
+		for entry := 0; entry < 4; entry++ {
+			rb, n, _, err := decode64(entry, enc)
+			if err != nil {
+				fail("%s rejected a conformant %d-byte stream written by an independent encoder: %v", e64[entry], len(enc), err)
+			}
+			if n >= 0 && int(n) != len(enc) {
+				fail("%s of a conformant stream returned n=%d of %d", e64[entry], n, len(enc))
+			}
+			if d := check64(rb, m); d != "" {
+				fail("%s read a conformant stream as another set: %s", e64[entry], d)
+			}
+		}
+	}
+	// ... and the smallest conformant buckets another writer can produce: k buckets of one value each under the
+	// run-capable cookie (15 bytes per bucket, less than this library ever writes)
+	{
+		k := rapid.IntRange(1, 14).Draw(t, "foreign.tinyBuckets")
+		tm := model.New()
+		for i := 0; i < k; i++ {
+			tm.Add(uint64(i*3+1)<<32 | uint64(i))
+		}
+		enc := spec.Encode64(spec.Buckets64Of(tm, nil), spec.EncOpts{ForceRunCookie: true})
+		for entry := 0; entry < 4; entry++ {
+			rb, _, _, err := decode64(entry, enc)
+			if err != nil {
+				fail("%s rejected a conformant %d-byte stream of %d one-value buckets (run-capable cookie): %v", e64[entry], len(enc), k, err)
+			}
+			if d := check64(rb, tm); d != "" {
+				fail("%s read a conformant stream of %d one-value buckets as another set: %s", e64[entry], k, d)
+			}
+		}
+	}
 	// round trips with trailing garbage
 	garbage := rapid.SampledFrom([]int{0, 0, 1, 5, 12, 40}).Draw(t, "garbage")
 	stream := append(append([]byte(nil), by...), bytes.Repeat([]byte{0x3A, 0x30, 0, 0, 1, 0, 0, 0, 0xFF}, garbage)[:garbage]...)
@@ -308,6 +345,18 @@ func propC18(t *rapid.T) {
 		}
 		if err := rb.Validate(); err != nil {
 			fail("%s into a receiver %s: round trip fails Validate: %v", e64[entry], recvName, err)
+		}
+		if entry == 3 {
+			// a second, unrelated FromBase64 must not disturb the bitmap decoded first
+			other := roaring64.BitmapOf(7, 8, 9, 1<<40)
+			os64, _ := other.ToBase64()
+			o2 := roaring64.New()
+			if _, err := o2.FromBase64(os64); err != nil || !o2.Equals(other) {
+				fail("FromBase64 of a small bitmap: err=%v", err)
+			}
+			if d := check64(rb, m); d != "" {
+				fail("FromBase64: the bitmap decoded first changed when another bitmap was decoded from Base64 afterwards: %s", d)
+			}
 		}
 		// the copying entry points must not keep the caller's bytes
 		if entry == 0 || entry == 2 {
